@@ -30,20 +30,20 @@ type c01Replay struct {
 }
 
 type parseOut struct {
-	panicked  string
-	errNil    bool
-	pid       int
-	offs      [6]int // ether len, ip4, ip6, udp, tcp, payload offsets (-1 = nil)
-	lens      [6]int
-	srcMAC    string
-	dstMAC    string
-	srcIP     string
-	dstIP     string
-	sport     uint16
-	dport     uint16
-	hasIP     bool
-	hostIP    string
-	outside   string // description of a slice that is not inside the input
+	panicked string
+	errNil   bool
+	pid      int
+	offs     [6]int // ether len, ip4, ip6, udp, tcp, payload offsets (-1 = nil)
+	lens     [6]int
+	srcMAC   string
+	dstMAC   string
+	srcIP    string
+	dstIP    string
+	sport    uint16
+	dport    uint16
+	hasIP    bool
+	hostIP   string
+	outside  string // description of a slice that is not inside the input
 }
 
 // site extracts the innermost repository function from a panic stack.
@@ -218,10 +218,10 @@ func diffField(a, b parseOut) string {
 
 type viewSpec struct {
 	name    string
-	min     int                 // minimum valid length
-	mk      func(b []byte) any  // converts bytes into the view value
-	control []int               // offsets enumerated jointly over the alphabet
-	valid   func() []byte       // a valid instance for the single byte substitution sweep
+	min     int                // minimum valid length
+	mk      func(b []byte) any // converts bytes into the view value
+	control []int              // offsets enumerated jointly over the alphabet
+	valid   func() []byte      // a valid instance for the single byte substitution sweep
 }
 
 func viewSpecs() []viewSpec {
